@@ -126,6 +126,26 @@ def run(chk, replay=None):
         records.append({"kind": "dpdformula", "id": f"{label}|{al}|formula", "ntop": observe.n_topologies(reaction), "spinful": int(any(o["spin2"] > 0 for o in outer[1:])),
                         "variant": variant.get((label, al), 0), "alignment": al, "reldiff_q": q, "nan": nan, "outer": outer})
         chk.count(1)
+    # axis-angle alignment: the Wigner angles against the rotation they are the Euler angles of (observe._wigner_job)
+    wjobs, wmeta = [], []
+    for (spec, al, reaction), res in zip(meta, results):
+        if spec[0] == "real" and al == "axis" and res["ok"] == 1 and observe.n_topologies(reaction) > 1:
+            wjobs.append((spec, observe.events_for(reaction, 12, nrng), chk.seed))
+            wmeta.append((spec, al, reaction))
+    wres = observe.run_jobs(wjobs, workers=8, job_timeout=900 if tier == "thorough" else 110, fn=observe._wigner_job) if wjobs else []
+    for (spec, al, reaction), res in zip(wmeta, wres):
+        label = f"{spec[1]}:{spec[2]}"
+        if res["ok"] == -1:
+            raise Machinery(f"Wigner-angle worker failed for {label}: {res['error']}")
+        if res["ok"] != 1:
+            skipped.append(f"{label}:{al}:wigner-angles:{res['error'][:60]}")
+            continue
+        for a in res["angles"]:
+            if a["diff"] < 0:
+                continue   # massless particle
+            records.append({"kind": "wignerangles", "id": f"{label}|{al}|wigner{a['suffix']}", "ntop": observe.n_topologies(reaction), "variant": variant.get((label, al), 0),
+                            "suffix": a["suffix"], "alignment": al, "diff_q": int(min(a["diff"] * 1e9, 2e9)), "reldiff_q": int(min(a["diff"] * 1e9, 2e9)), "nan": 0, "outer": observe.outer_states(reaction)})
+            chk.count(1)
     if not records:
         raise Machinery("no model could be evaluated")
     tv = trace.validate("Trace_Observe", records, timeout=900)
@@ -138,6 +158,11 @@ def run(chk, replay=None):
     for clause, rid, info in tv.rejects:
         r = byid[rid]
         label, al, _ = rid.split("|")
+        if r["kind"] == "wignerangles":
+            chk.violation(f"wigner-angles-differ-from-the-euler-angles-of-the-wigner-rotation:{label}",
+                          f"{label} under axis-angle alignment: R_z(alpha)R_y(beta)R_z(gamma) for {r['suffix']} differs by {r['diff_q'] * 1e-9:.3g} from the rotation "
+                          "(boosts along the decay chain) x (direct boost)^-1 computed from the four-momenta (and the intensity of this pair is not rotation invariant)", {"record": r})
+            continue
         if r["kind"] == "dpdformula":
             chk.violation(f"dpd-aligned-amplitude-differs-from-the-decomposition-formula:{label}:alignment={al}",
                           f"{label} under {al}: the aligned intensity differs by {r['reldiff_q'] * 1e-9:.3g} (relative) from sum_k sum_l' A^k[l'] d(zeta^0_k(ref)) prod_i d(zeta^i_k(ref)) "
